@@ -97,7 +97,8 @@ func (s *StrategyChoiceModule) set(interest *spec.Interest, pitToken []byte, inF
 		return
 	}
 
-	if !s.strategyPrefix.IsPrefix(params.Strategy.Name) || len(params.Strategy.Name) <= len(s.strategyPrefix) {
+	if !s.strategyPrefix.IsPrefix(params.Strategy.Name) || len(params.Strategy.Name) <= len(s.strategyPrefix) ||
+		len(params.Strategy.Name) > len(s.strategyPrefix)+2 {
 		core.LogWarn(s, "Unknown Strategy=", params.Strategy.Name, " in ControlParameters for Interest=", interest.Name())
 		response = makeControlResponse(404, "Unknown strategy", nil)
 		s.manager.sendResponse(response, interest, pitToken, inFace)
